@@ -223,11 +223,39 @@ def run(ctx):
             for style in ("full", "hash", "none"):
                 one_style(ctx, eng, res, stats, sc, args, explicit, roots, walked, style, real, order_fake, it)
         linked_worktree_cases(ctx, eng, res, stats)
+        root_tree_cases(ctx, eng, res, stats, rng)
     finally:
         eng.close()
     res.coverage_extra["input_distribution"] = stats
     res.assumptions = ["git 2.39.5 `rev-parse --verify` is the judge of what a description denotes"]
     return res
+
+
+def root_tree_cases(ctx, eng, res, stats, rng):
+    """A ROOT that names a TREE which is also the root tree of a commit walked in the same run (through another ROOT or a
+    selected reference), in both orders and spelled as `<rev>^{tree}`, `<rev>:` and by id: the witnesses lie below that tree,
+    and whichever way they are described, the description has to resolve."""
+    sc = S.Scenario()
+    small = sc.add({"kind": "blob", "data": b"s"})
+    big = sc.add({"kind": "blob", "data": b"B" * 9000})
+    f = sc.add({"kind": "tree", "entries": [(0o100644, b"big", big)] + [(0o100644, b"n%02d" % i, small) for i in range(12)]})
+    e = sc.add({"kind": "tree", "entries": [(0o40000, b"f", f)]})
+    dd = sc.add({"kind": "tree", "entries": [(0o40000, b"e", e)]})
+    top = sc.add({"kind": "tree", "entries": [(0o40000, b"d", dd), (0o100644, b"readme", small)]})
+    c = sc.add({"kind": "commit", "tree": top, "parents": []})
+    sc.refs.append((b"refs/heads/main", c))
+    sc.compute()
+    it = 0
+    for real in (False, True):
+        for spell in ("main^{tree}", "main:", sc.oids[top].hex(), "refs/heads/main^{tree}"):
+            for args, opts, explicit in (([], [], [("main", c), (spell, top)]), ([], [], [(spell, top), ("main", c)]),
+                                         (["--branches"], [SC.FLAG_OPTS["--branches"]], [(spell, top)])):
+                roots = SC.build_roots(sc, opts, explicit)
+                walked = [r["obj"] for r in roots if r["walk"]]
+                for style in ("full", "hash"):
+                    one_style(ctx, eng, res, stats, sc, args, explicit, roots, walked, style, real, sc.enum_random(walked, rng), it)
+                    it += 1
+    stats["root_tree_cases"] = it
 
 
 def linked_worktree_cases(ctx, eng, res, stats):
@@ -477,14 +505,17 @@ def one_style(ctx, eng, res, stats, sc, args, explicit, roots, walked, style, re
                     res.violations.append(vlib.Violation("the object cited for %s does not attain the reported value" % vkey, inp,
                                                          expected={"value_of_cited_object": mv}, observed={vkey: j[vkey], "cited": val}))
                 # the model's string for the same enumeration order
+                same_as_model = mslots is None
                 if mslots is not None:
                     mstr = bytes.fromhex(mslots[si]).decode("latin1") if mslots[si] != "-" else None
+                    same_as_model = not (mstr != val.encode("utf-8", "surrogateescape").decode("latin1") and mstr != val)
                     if mstr != val.encode("utf-8", "surrogateescape").decode("latin1") and mstr != val:
                         # invalid UTF-8 in names is replaced by encoding/json: compare only when the name is clean
                         try:
                             clean = mstr.encode("latin1").decode("utf-8") == val
                         except Exception:
                             clean = None
+                        same_as_model = clean is not False
                         if clean is False:
                             res.violations.append(vlib.Violation("%s differs from the PathResolver model" % pkey, inp, expected=mstr, observed=val,
                                                                  nofail=True))
@@ -506,7 +537,7 @@ def one_style(ctx, eng, res, stats, sc, args, explicit, roots, walked, style, re
                         stats["descriptions_resolved_by_model"] = stats.get("descriptions_resolved_by_model", 0) + 1
                         got_i = py_resolve(sc, table, rawd)
                         if got_i != xi:
-                            cls = finding_class(desc, sc, [sp for sp, _ in explicit])
+                            cls = finding_class(desc, sc, [sp for sp, _ in explicit]) if same_as_model else None     # (the recorded finding is what the model of the code prints too)
                             res.violations.append(vlib.Violation(
                                 "description printed for %s does not resolve (stated rev-parse model) to the cited object" % pkey, inp,
                                 expected=oidhex, observed={"description": desc, "resolves_to": sc.oids[got_i].hex() if got_i is not None else None},
@@ -537,7 +568,7 @@ def one_style(ctx, eng, res, stats, sc, args, explicit, roots, walked, style, re
                     stats["descriptions_resolved_by_git"] += 1
                     got = p.stdout.decode().strip()
                     if p.returncode != 0 or got != oidhex:
-                        cls = finding_class(desc, sc, [sp for sp, _ in explicit])
+                        cls = finding_class(desc, sc, [sp for sp, _ in explicit]) if same_as_model else None     # (the recorded finding is what the model of the code prints too)
                         res.violations.append(vlib.Violation(
                             "description printed for %s does not resolve (git rev-parse) to the cited object" % pkey, inp,
                             expected=oidhex, observed={"description": desc, "rev-parse": got or p.stderr.decode("latin1")[:100]}, cls=cls))
